@@ -826,6 +826,9 @@ func (s *Sim) Finish() {
 		close(p.ch)
 	}
 	s.cancel()
+	// let everything that was released come to rest before connections are
+	// reset and stores closed (badger blocks readers for ever once closed)
+	s.wait()
 	for i := len(s.teardown) - 1; i >= 0; i-- {
 		s.teardown[i]()
 	}
